@@ -96,6 +96,13 @@ func c02Gen(c *vfCtx, emit func(c02Case)) {
 			pairs("yaml", ydocs[:8], color, mode)
 		}
 	}
+	// long texts (hunk headers, popular-line heuristic of the line differ)
+	for _, pr := range vfLongTexts(c.thorough()) {
+		for _, color := range []bool{false, true} {
+			emit(c02Case{API: "snap", S: pr[0], R: pr[1], Color: color, Mode: "unset"})
+			emit(c02Case{API: "ssnap", S: pr[0], R: pr[1], Color: color, Mode: "unset"})
+		}
+	}
 	// single-line pairs that differ only in bytes which are not valid UTF-8, or only in whitespace
 	tricky := []string{"a\xffb", "a\xfeb", "a\xff\xfeb", "a\xc3b", "a\xc3\x28b", "\xff", "\xfe", "a b", "a\tb", "a  b", "a b", "a​b", "ab", "a\xef\xbf\xbdb"}
 	for _, color := range []bool{false, true} {
